@@ -103,7 +103,7 @@ def fields_of(o):
 def run(ctx):
     ctx.check_theorems("ActsModel.Props.C18")
     ng = 3000 if ctx.tier == "quick" else 60000
-    nc = 150 if ctx.tier == "quick" else 3000
+    nc = 300 if ctx.tier == "quick" else 3000
     rng = Rng(ctx.seed * 2654435761)
     # ---- matcher vs globset
     pairs = [gen_glob_pair(rng.fork(i)) for i in range(ng)]
